@@ -137,7 +137,10 @@ def run(case, tape=None):
                 nb_cells = int(npts[3]) - pdeg
                 u = np.linspace(-1.0, 1.0, nb_cells + 1)
                 vlo, vhi = float(cdict['vMin']), float(cdict['vMax'])
-                gb = vlo + (vhi - vlo) * 0.5 * (1.0 + np.sign(u) * np.abs(u) ** 1.7)
+                if case['dseed'] % 2:
+                    gb = vlo + (vhi - vlo) * 0.5 * (1.0 + np.sign(u) * np.abs(u) ** 1.7)      # refined around the centre
+                else:
+                    gb = vlo + (vhi - vlo) * (0.5 * (u + 1.0)) ** 1.6                          # refined towards vMin: not symmetric
                 gb[0], gb[-1] = vlo, vhi
                 bsv = spl.BSplines(spl.make_knots(gb, pdeg, False), pdeg, False, False)
                 eta_g = [f.eta_grid[0], f.eta_grid[1], f.eta_grid[2], np.asarray(bsv.greville)]
@@ -147,7 +150,11 @@ def run(case, tape=None):
                 f_g.getAllData()[:] = cm.local(Fg, f_g.getLayout('v_parallel'))
                 rho_g = Grid(f.eta_grid[:3], f.getSpline(slice(0, 3)), rem, 'v_parallel_2d', comm, dtype=np.float64)
                 cm.poison(rho_g.getAllData())
-                DensityFinder(6, bsv, eta_g, constants).getRho(f_g, rho_g)
+                dfg = DensityFinder(6, bsv, eta_g, constants)
+                if case['dseed'] % 3:
+                    dfg.getPerturbedRho(f_g, rho_g)
+                else:
+                    dfg.getRho(f_g, rho_g)
                 graded = (phys.block(rho_g), [float(x) for x in gb], [float(x) for x in eta_g[3]]) if True else None
             other = None
             if alt is not None:
@@ -198,7 +205,10 @@ def run(case, tape=None):
                 Fg = np.random.RandomState((case['dseed'] + 909) % (2 ** 31)).standard_normal(npts)
                 gotg = phys.assemble([r['graded'][0] for r in results], npts[:3], 'rho (graded velocity spline)')
                 wg = ref.ClampedInterp(vg, np.asarray(gb), int(cdict['splineDegrees'][3])).quadrature_weights()
-                errg = float(np.max(np.abs(gotg - Fg @ wg))) / (float(np.max(np.abs(Fg))) * (gb[-1] - gb[0]))
+                wantg = Fg @ wg
+                if case['dseed'] % 3:
+                    wantg = wantg - (ref.f_eq(eta[0], vg, cdict) @ wg)[:, None, None]
+                errg = float(np.max(np.abs(gotg - wantg))) / (float(np.max(np.abs(Fg))) * (gb[-1] - gb[0]))
                 if not (errg <= TOL):
                     raise OracleFail('density-differs', dict(grid=g, relerr=errg, why='velocity spline on non-uniform breaks'))
                 pr['graded_velocity_spline'] = 1
